@@ -6,8 +6,11 @@ Type enum, field interface, atomic types
 package anytype
 
 import (
+	"bytes"
+	"encoding/json"
 	"math"
 	"strconv"
+	"strings"
 )
 
 /*
@@ -190,7 +193,23 @@ Returns:
 */
 func (ego *atString) serialize() string {
 	val := ego.getVal().(string)
-	return strconv.Quote(val)
+	return quote(val)
+}
+
+/*
+Encodes a string as a JSON string literal (RFC 8259).
+Parameters:
+  - val - string to encode.
+
+Returns:
+  - quoted and escaped string.
+*/
+func quote(val string) string {
+	var buffer bytes.Buffer
+	encoder := json.NewEncoder(&buffer)
+	encoder.SetEscapeHTML(false)
+	encoder.Encode(val)
+	return strings.TrimSuffix(buffer.String(), "\n")
 }
 
 /*
